@@ -1,4 +1,97 @@
-(* C12/Props.v — property-level theorems only. Tags are read by bin/check. *)
+(* C12/Props.v — property-level theorems only (statements + `exact`), each followed by Print Assumptions.
+   Tags [FULL]/[PARTIAL]/[REFUTED] are read by bin/check.
+
+   Vocabulary (C12/Model.v): an [event] is one of: a command committed through the master leader's FSM, a master
+   follower catching up by log replay / installing the leader's snapshot onto its live state / restarting empty,
+   a master leader change, a master fail-over to a fresh instance restored from a snapshot, the master API calls
+   (registerCurator, registerTractserver, curatorHeartbeat, newPartition, lookup), the phases of the curator's
+   initialize (each master reply may be lost), one heartbeat round (with SyncPartitions), one partition-monitor
+   round, a curator leader change, a curator node restart.  [run evs] is the world after the events, [h_cids],
+   [h_tsids], [h_parts] are ghost lists of everything the master ever returned.
+   [trace_safe evs] excludes exactly the trigger of finding F7 (a snapshot installed onto a live replica that is
+   read-only while the snapshot is not; also a snapshot with a zero counter / empty table, which gob would not
+   transmit and which never arises below the wrap).  [bounded evs]: fewer than 2^32 - 3 events, so that the
+   uint32 counters do not wrap. *)
 From Coq Require Import List NArith.
 From BLB Require Import C12.Model C12.Proofs.
 Import ListNotations.
+Open Scope N_scope.
+
+(* [FULL] for ALL event sequences (registrations, partition requests, heartbeats, lookups, lost replies and retries, master leader changes, follower catch-up by replay or snapshot, restarts, fail-over to a restored instance, curator leader changes and restarts) that do not contain the F7 trigger and are shorter than the uint32 wrap, all curator ids ever returned are pairwise distinct, all tractserver ids ever returned are pairwise distinct, and all partitions ever returned are pairwise distinct *)
+Theorem ids_unique :
+  forall evs, trace_safe evs = true -> bounded evs ->
+    NoDup (h_cids (run evs)) /\ NoDup (h_tsids (run evs)) /\ NoDup (map fst (h_parts (run evs))).
+Proof. exact ids_unique_lemma. Qed.
+Print Assumptions ids_unique.
+
+(* [REFUTED] without the carve-out the statement is false on the faithful model, because SnapshotRestore decodes into the live struct and a read-only follower stays read-only, misses a registration, later leads and returns curator id 2 a second time, witness f7_trace, replayed on the real code by the harness monitor dup-curator-id, finding F7 *)
+Theorem ids_unique_refuted :
+  exists evs, bounded evs /\ ~ NoDup (h_cids (run evs)).
+Proof. exact ids_unique_refuted_lemma. Qed.
+Print Assumptions ids_unique_refuted.
+
+(* [FULL] once partition p was returned for curator c, or once the leader's table says p belongs to c, then after ANY further events, on whichever replica leads, lookup p answers c *)
+Theorem ownership_stable :
+  forall evs evs' p c,
+    trace_safe (evs ++ evs') = true -> bounded (evs ++ evs') ->
+    In (p, c) (h_parts (run evs)) \/ m_lookup (leader_st (run evs)) p = ROk c ->
+    m_lookup (leader_st (run (evs ++ evs'))) p = ROk c.
+Proof. exact ownership_stable_lemma. Qed.
+Print Assumptions ownership_stable.
+
+(* [REFUTED] without the carve-out a partition handed out to curator 1 is later looked up as owned by curator 2, witness f7_trace_part, finding F7 *)
+Theorem ownership_refuted :
+  exists evs evs' p c, bounded (evs ++ evs') /\ In (p, c) (h_parts (run evs)) /\
+                       m_lookup (leader_st (run (evs ++ evs'))) p <> ROk c.
+Proof. exact ownership_refuted_lemma. Qed.
+Print Assumptions ownership_refuted.
+
+(* [FULL] in every reachable world the curator group's durable partition set is a subset of what the master leader's table assigns to the curator's durable id, which is then non-zero, and the log.Fatalf sanity check of heartbeatLoop has never fired *)
+Theorem curator_serves_only_assigned :
+  forall evs, trace_safe evs = true -> bounded evs ->
+    w_fatal (run evs) = false /\
+    forall p, In p (c_parts (w_cur (run evs))) ->
+              c_id (w_cur (run evs)) <> 0 /\ m_lookup (leader_st (run evs)) p = ROk (c_id (w_cur (run evs))).
+Proof. exact curator_serves_only_assigned_lemma. Qed.
+Print Assumptions curator_serves_only_assigned.
+
+(* [FULL] after any heartbeat round in which the master answered and the reply arrived, every partition the master leader attributes to this curator's id, and every partition ever returned for that id even if the reply was lost or the receiving curator leader was replaced before committing it, is in the curator's durable set *)
+Theorem lost_assignment_recovered :
+  forall evs n ps,
+    trace_safe (evs ++ [EvCHeartbeat n false]) = true -> bounded (evs ++ [EvCHeartbeat n false]) ->
+    snd (c_heartbeat (run evs) n false) = Some (Some ps) ->
+    let w' := run (evs ++ [EvCHeartbeat n false]) in
+    c_id (w_cur w') <> 0 /\
+    (forall p, m_lookup (leader_st w') p = ROk (c_id (w_cur w')) -> In p (c_parts (w_cur w'))) /\
+    (forall p, In (p, c_id (w_cur w')) (h_parts w') -> In p (c_parts (w_cur w'))).
+Proof. exact lost_assignment_recovered_lemma. Qed.
+Print Assumptions lost_assignment_recovered.
+
+(* ---------- non-vacuity ---------- *)
+(* a registration whose reply is lost (id 1 is leaked, as master.go documents), a partition reply that is lost,
+   a master fail-over, a follower that installs a snapshot and takes over, a curator leader change between
+   receiving partition 2 and committing it; the final heartbeat recovers partitions 1 and 2 *)
+Definition demo : list event :=
+  [EvCStart 0; EvCRegister 0 true; EvCRegister 0 false; EvCCommitReg 0;
+   EvCNewPart 0 true; EvFailover; EvMHeartbeat 2; EvCNewPart 0 false;
+   EvCLeader 1; EvCStart 1; EvInstall 1; EvLeader 1; EvMHeartbeat 2; EvCNewPart 1 false; EvCCommitPart 1;
+   EvMRegTs; EvMRegTs].
+
+Example demo_safe : trace_safe (demo ++ [EvCHeartbeat 1 false]) = true /\ bounded (demo ++ [EvCHeartbeat 1 false]).
+Proof. split; [vm_compute; reflexivity | unfold bounded; simpl; reflexivity]. Qed.
+
+Example demo_before :
+  let w := run demo in
+  h_cids w = [1; 2] /\ h_tsids w = [1; 2] /\ h_parts w = [(1, 2); (2, 2); (3, 2)] /\
+  c_id (w_cur w) = 2 /\ c_parts (w_cur w) = [3] /\
+  snd (c_heartbeat w 1 false) = Some (Some [1; 2; 3]).
+Proof. vm_compute. repeat split; reflexivity. Qed.
+
+Example demo_after :
+  let w' := run (demo ++ [EvCHeartbeat 1 false]) in
+  c_parts (w_cur w') = [1; 2; 3] /\ w_fatal w' = false /\ m_lookup (leader_st w') 1 = ROk 2.
+Proof. vm_compute. repeat split; reflexivity. Qed.
+
+(* the F7 witnesses really contain the excluded trigger *)
+Example f7_witnesses_excluded : trace_safe f7_trace = false /\ trace_safe f7_trace_part = false.
+Proof. exact f7_trace_unsafe. Qed.
